@@ -56,6 +56,15 @@ def grep_gate():
     """No Admitted/Axiom/... anywhere in the development (Section variables are allowed only
     inside Sections; checked by looking for an enclosing Section)."""
     bad = []
+    # the development is what _CoqProject lists (plus the generated tables); files that are not listed are not built
+    listed = set()
+    try:
+        for line in open(os.path.join(COQ, "_CoqProject")):
+            line = line.strip()
+            if line.endswith(".v"):
+                listed.add(os.path.normpath(os.path.join(COQ, line)))
+    except OSError:
+        pass
     for root, _dirs, files in os.walk(COQ):
         if "/Cases" in root:
             continue
@@ -63,6 +72,8 @@ def grep_gate():
             if not fn.endswith(".v"):
                 continue
             path = os.path.join(root, fn)
+            if listed and os.path.normpath(path) not in listed:
+                continue
             depth = 0
             in_comment = 0
             for lineno, line in enumerate(open(path, encoding="utf-8"), 1):
